@@ -1830,7 +1830,7 @@ pub fn run(args: &Args) -> i32 {
         "query_observer_invocations",
         observers::OBSERVER_CALLS.load(std::sync::atomic::Ordering::Relaxed),
     );
-    rep.finish(args.by_tier(20, 200))
+    rep.finish(args.by_tier(10, 100))
 }
 
 fn replay(args: &Args, path: &std::path::Path, mut rep: Report) -> i32 {
